@@ -6,17 +6,22 @@ LEVEL = "exploration"
 COMPONENTS = {"real": base.COMPONENTS_SYS["real"] + ["eudoxia.utils.dag.DAG / DAGIterator"],
               "stub": base.COMPONENTS_EX["stub"]}
 RULE_TEXT = (base.RULE_SYS + " || " + base.RULE_EX + " || separate pure-function clause: DAG iteration is swept "
-             "over ALL insertion-ordered DAGs on 1..6 nodes (reported under dag_iteration_sweep, not as simulation coverage)")
+             "over ALL insertion-ordered DAGs on 1..6 nodes (reported under dag_iteration_sweep, not as simulation coverage) || "
+             "depwalk family: seeded request histories on multi-parent DAGs of 3..6 operators, start requests and "
+             "check_transition polls repeated while parents complete, fail and are retried in any order")
 claims = base.prefix_claims("C01.")
 execute = base.dispatch_execute
 prepare_replay = base.dispatch_prepare
 sample = base.dispatch_sample
-WANT_PROBES = ["dep_pending_parent", "dep_order", "dep_late"]
+WANT_PROBES = ["dep_pending_parent", "dep_order", "dep_late", "start_refused_for_parents", "polled"]
+shrink_candidates = base.walk_candidates
 
 
 def make(family, rng, tier):
     if family == "ex":
         return exgen.gen(rng, "C01", tier)
+    if family == "depwalk":
+        return walks.gen_depwalk(rng)
     if family == "chaos":
         scn = sysgen.gen_chaos(rng, tier)
         scn["oracles"] = ["model"]
@@ -28,7 +33,7 @@ def make(family, rng, tier):
 
 def plan(tier):
     return [("ex", 4000 if tier == "quick" else 60000), ("sys", 4000 if tier == "quick" else 80000),
-            ("chaos", 1000 if tier == "quick" else 20000)]
+            ("chaos", 1000 if tier == "quick" else 20000), ("depwalk", 3000 if tier == "quick" else 100000)]
 
 
 def extra(tier, seed):
